@@ -15,6 +15,9 @@ use super::{spawner::Spawner, *};
 
 use crate::{Addr, environment::Environment};
 
+#[cfg(feature = "verif")]
+use crate::verif::async_lock;
+
 type AnyBox = Box<dyn Any + Send + Sync>;
 
 static REGISTRY: LazyLock<async_lock::RwLock<HashMap<TypeId, AnyBox>>> =
@@ -329,5 +332,13 @@ mod tests {
             svc_addr.stop().unwrap();
             svc_addr.await.unwrap();
         }
+    }
+}
+
+/// Verification hook: empty the global registry (between harness scenarios).
+#[cfg(feature = "verif")]
+pub fn __verif_registry_clear() {
+    if let Some(mut registry) = REGISTRY.try_write() {
+        registry.clear();
     }
 }
